@@ -109,10 +109,10 @@ ssize_t sk_fs_write(int fd, const void* buf, size_t len) {
             std::int64_t short_to = -1;
             const int e = gate(&short_to);
             const std::int64_t off = syscall(SYS_lseek, fd, 0, SEEK_CUR);
-            if (e) { log_op("write", it->second, off, static_cast<std::int64_t>(len), e); errno = e; return -1; }
+            if (e) { log_op("write", it->second, off, static_cast<std::int64_t>(len), e, buf_all_zero(buf, len)); errno = e; return -1; }
             size_t n = len;
             if (short_to >= 0 && static_cast<size_t>(short_to) < n) n = static_cast<size_t>(short_to);
-            if (n == 0 && len > 0) { log_op("write", it->second, off, 0, ENOSPC); errno = ENOSPC; return -1; }
+            if (n == 0 && len > 0) { log_op("write", it->second, off, 0, ENOSPC, buf_all_zero(buf, len)); errno = ENOSPC; return -1; }
             const long r = syscall(SYS_write, fd, buf, n);
             log_op("write", it->second, off, r, r < 0 ? errno : 0, r > 0 && buf_all_zero(buf, static_cast<size_t>(r)));
             return r;
@@ -143,14 +143,15 @@ ssize_t writev(int fd, const struct iovec* iov, int cnt) {
             size_t len = 0;
             bool zero = true;
             for (int i = 0; i < cnt; ++i) { len += iov[i].iov_len; zero = zero && buf_all_zero(iov[i].iov_base, iov[i].iov_len); }
-            if (e) { log_op("write", it->second, off, static_cast<std::int64_t>(len), e); errno = e; return -1; }
+            if (e) { log_op("write", it->second, off, static_cast<std::int64_t>(len), e, zero); errno = e; return -1; }
             if (short_to >= 0 && static_cast<size_t>(short_to) < len) {
                 // short write: emit a prefix only
                 size_t left = static_cast<size_t>(short_to);
-                if (left == 0) { log_op("write", it->second, off, 0, ENOSPC); errno = ENOSPC; return -1; }
+                if (left == 0) { log_op("write", it->second, off, 0, ENOSPC, zero); errno = ENOSPC; return -1; }
                 ssize_t total = 0;
                 for (int i = 0; i < cnt && left > 0; ++i) {
                     const size_t n = std::min(left, iov[i].iov_len);
+                    if (n == 0) continue;
                     const long r = syscall(SYS_write, fd, iov[i].iov_base, n);
                     if (r <= 0) break;
                     total += r;
